@@ -2,112 +2,53 @@ package parser_test
 
 import (
 	"fmt"
-	"reflect"
-	"strings"
-	"sync"
 	"testing"
 
 	"github.com/mattn/anko/ast"
 	"github.com/mattn/anko/parser"
 )
 
-type positioned interface{ Position() ast.Position }
-
-var reflectValueType = reflect.TypeOf(reflect.Value{})
-
-// dump renders a tree structurally, with the position of every node.
-func dump(sb *strings.Builder, v reflect.Value) {
-	switch v.Kind() {
-	case reflect.Interface, reflect.Ptr:
-		if v.IsNil() {
-			sb.WriteString("nil ")
-			return
-		}
-		if v.Kind() == reflect.Interface {
-			dump(sb, v.Elem())
-			return
-		}
-		if p, ok := v.Interface().(positioned); ok {
-			fmt.Fprintf(sb, "%s@%d:%d", v.Elem().Type().Name(), p.Position().Line, p.Position().Column)
-		}
-		dump(sb, v.Elem())
-	case reflect.Struct:
-		if v.Type() == reflectValueType {
-			if rv := v.Interface().(reflect.Value); rv.IsValid() {
-				fmt.Fprintf(sb, "%#v ", rv.Interface())
-			}
-			return
-		}
-		sb.WriteString("{")
-		for i := 0; i < v.NumField(); i++ {
-			if v.Type().Field(i).PkgPath == "" { // exported fields only
-				dump(sb, v.Field(i))
-			}
-		}
-		sb.WriteString("} ")
-	case reflect.Slice:
-		sb.WriteString("[")
-		for i := 0; i < v.Len(); i++ {
-			dump(sb, v.Index(i))
-		}
-		sb.WriteString("] ")
-	default:
-		fmt.Fprintf(sb, "%v ", v.Interface())
-	}
-}
-
-func dumpTree(t ast.Stmt) string {
-	var sb strings.Builder
-	dump(&sb, reflect.ValueOf(&t).Elem())
-	return sb.String()
-}
-
-// A tree returned by ParseSrc must not change because ParseSrc is called again.
-func TestDemoEarlierTreeUnchangedByLaterParse(t *testing.T) {
-	first, err := parser.ParseSrc("i++")
+// shape returns "Type@line:col" for every top-level statement of src.
+func shape(t *testing.T, src string) []string {
+	t.Helper()
+	tree, err := parser.ParseSrc(src)
 	if err != nil {
-		t.Fatal(err)
+		t.Fatalf("ParseSrc(%q): unexpected error %v", src, err)
 	}
-	before := dumpTree(first)
-	if _, err = parser.ParseSrc("x = 1\n\n      total--"); err != nil {
-		t.Fatal(err)
+	if tree == nil {
+		return nil
 	}
-	after := dumpTree(first)
-	if before != after {
-		t.Errorf("tree of \"i++\" changed after an unrelated ParseSrc call:\nbefore: %s\nafter:  %s", before, after)
+	list, ok := tree.(*ast.StmtsStmt)
+	if !ok {
+		t.Fatalf("ParseSrc(%q): top level is %T, want *ast.StmtsStmt", src, tree)
 	}
+	var out []string
+	for _, s := range list.Stmts {
+		out = append(out, fmt.Sprintf("%T@%d:%d", s, s.Position().Line, s.Position().Column))
+	}
+	return out
 }
 
-// The same text yields the same tree, also under concurrent calls.
-func TestDemoSameTextSameTreeConcurrently(t *testing.T) {
-	const workers, rounds = 8, 2000
-	var wg sync.WaitGroup
-	errs := make(chan string, workers)
-	for w := 0; w < workers; w++ {
-		wg.Add(1)
-		go func(w int) {
-			defer wg.Done()
-			src := strings.Repeat("\n", w) + strings.Repeat(" ", w) + "n++"
-			want := ""
-			for r := 0; r < rounds; r++ {
-				tree, err := parser.ParseSrc(src)
-				if err != nil {
-					errs <- err.Error()
-					return
-				}
-				got := dumpTree(tree)
-				if r == 0 {
-					want = got
-				} else if got != want {
-					errs <- fmt.Sprintf("worker %d round %d: ParseSrc(%q) gave\n  %s\nbut earlier gave\n  %s", w, r, src, got, want)
-					return
-				}
-			}
-		}(w)
+// Composition: if A and B parse on their own, A+"\n"+B parses to stmts(A)++stmts(B),
+// B's statements keeping their position shifted down by the number of lines of A.
+func TestDemoCompositionLeadingEmptyStatements(t *testing.T) {
+	cases := []struct {
+		a, b string
+		want []string // expected top-level shape of a+"\n"+b
+	}{
+		{";", ";x = 1", []string{"*ast.LetsStmt@2:2"}},
+		{";", ";if a { b }", []string{"*ast.IfStmt@2:2"}},
+		{"# header", ";module m { f = 1 }", []string{"*ast.ModuleStmt@2:2"}},
+		{"", ";;x", []string{"*ast.ExprStmt@2:3"}},
 	}
-	wg.Wait()
-	close(errs)
-	for e := range errs {
-		t.Error(e)
+	for _, c := range cases {
+		sa, sb := shape(t, c.a), shape(t, c.b)
+		if len(sa) != 0 || len(sb) != 1 {
+			t.Fatalf("setup: %q -> %v, %q -> %v", c.a, sa, c.b, sb)
+		}
+		got := shape(t, c.a+"\n"+c.b)
+		if fmt.Sprint(got) != fmt.Sprint(c.want) {
+			t.Errorf("ParseSrc(%q): top-level statements %v, want %v (B alone: %v)", c.a+"\n"+c.b, got, c.want, sb)
+		}
 	}
 }
